@@ -7,6 +7,11 @@ NOT_APPLICABLE = {
 NOTES = "See DESIGN.md. ./check <id> --tier quick|thorough; exit 0 held / 1 VIOLATION / 2 infrastructure failure (never a verdict)."
 TRUST = "Trusted: TLC 1.8, the Go harness (vdrive: rendering of stimuli to Lisp text, observation through a registered marker function), python3 orchestration. Bounded: see evidence 'rule'."
 CHECKS = {
+ "C02": {
+  "text": "Trace validation: the harness reads generated texts (token pool over the whole grammar incl. multi-byte characters, numbers in several radixes, prefixes, comments) through every delivery mode - ReadStream, one-form ReadStream, ReadStreamPush, ReadStreamEach with every single cut / fixed chunk sizes / random multi-cuts, repeated ReadOne, read-from-string, cl:read - under several *read-base* / float-format settings, plus every proper prefix of every text; each event carries the one-shot result and is judged under TLC by the TLA+ acceptor ReaderTrace: delivery independence (relational), and, from the per-code-point structure machine Reader.tla, form count, reported positions between the end of a form and the start of the next, incomplete texts never read as complete, forms before a truncation point unchanged.",
+  "design_ref": "DESIGN.md section 3 C02",
+  "note": TRUST + " Objects are compared through their printed form. Two open findings (read-from-string positions with multi-byte text, cl:read on a non-seekable stream) are exercised as probes only.",
+  "technique": "TLA+ structure machine + trace acceptor (TLC) over traces recorded from the implementation"},
  "C06": {
   "text": "Trace validation: the harness executes histories of list operations over three variables (every ordered pair of the 31 operations on lists built in five ways, plus seeded-random histories) against slip and records, after every operation, the returned value and the contents of every variable; the TLA+ acceptor ListHeapTrace (permissive reference: value the language defines + may-share identities by the language rules) replays each recorded event under TLC and rejects a wrong result, a change caused by a non-destructive function or place operation, and a change of a list that cannot share structure with the one destroyed.",
   "design_ref": "DESIGN.md section 3 C06",
